@@ -89,10 +89,10 @@ Proof. split; reflexivity. Qed.
 
 Local Close Scope string_scope.
 (* ---- soundness of the acceptance check: the scheduler only ever takes steps of the LTS ---- *)
-Lemma pick_step cf o s ls s' : pick cf o s ls = Some s' -> exists l, step cf s l = Some s'.
+Lemma pick_step cf gc o s ls s' : pick cf gc o s ls = Some s' -> exists l, step cf s l = Some s'.
 Proof.
   induction ls as [|l t IH]; simpl; [discriminate|].
-  destruct (allowed o s l); [|exact IH].
+  destruct (allowed (gc_on gc) (gc_at gc) (gc_n gc) o s l); [|exact IH].
   destruct (step cf s l) eqn:E; [|exact IH].
   intro H; inversion H; subst. exists l. exact E.
 Qed.
@@ -104,10 +104,10 @@ Proof.
   - destruct (step cf s l); [apply IH; exact H|discriminate].
 Qed.
 
-Lemma greedy_reachable cf o fuel s : reachable cf s -> reachable cf (greedy cf o fuel s).
+Lemma greedy_reachable cf gc o fuel s : reachable cf s -> reachable cf (greedy cf gc o fuel s).
 Proof.
   revert s. induction fuel as [|f IH]; simpl; intros s H; [exact H|].
-  destruct (pick cf o s (candidates s)) as [s'|] eqn:E; [|exact H].
+  destruct (pick cf gc o s (candidates s)) as [s'|] eqn:E; [|exact H].
   apply IH. apply pick_step in E as [l El]. destruct H as [ls Hls]. exists (ls ++ [l]).
   rewrite (run_app _ _ _ _ _ Hls). simpl. rewrite El. reflexivity.
 Qed.
@@ -122,10 +122,29 @@ Lemma model_ok_sound c : model_applicable c = true -> model_ok c = true ->
             same_set (map fst (ws s)) (ms_list (c_trace c)) = true /\
             rev (recvd s) = rr_list (c_trace c).
 Proof.
-  unfold model_ok. intros Ha. rewrite Ha. unfold accepted. intro H.
+  unfold model_ok. intros Ha.
+  assert (Hf : Nat.eqb (c_fn c) 6 = false).
+  { unfold model_applicable in Ha. destruct (c_fn c) as [|[|[|[|[|[|[|n]]]]]]]; try reflexivity;
+      rewrite ?andb_false_r in Ha; simpl in Ha; try discriminate; rewrite ?andb_false_r in Ha; discriminate. }
+  rewrite Hf, Ha. unfold accepted. intro H.
   apply andb_true_iff in H as [H H4]. apply andb_true_iff in H as [H H3]. apply andb_true_iff in H as [H1 H2].
   exists (model_run c). split; [apply model_run_reachable|]. split; [exact H1|]. split.
   - destruct (Model.c (model_run c)); try discriminate. eexists; split; [reflexivity|exact H2].
   - split; [exact H3|]. apply (list_eqb_eq val_eqb); [|exact H4].
     intros [a1 a2] [b1 b2]. unfold val_eqb; simpl. rewrite andb_true_iff, !Nat.eqb_eq. split; [intros [-> ->]; reflexivity|intro E; inversion E; auto].
+Qed.
+
+(* errorx.AtomicError: the transcription (Model.ae_set / ae_load) satisfies the requirement retErr relies on:
+   whatever observation the model reproduces also passes the spec checker (Load returns the last error Set, typed
+   nils included; Set(nil) is a no-op; Set panics only on a change of concrete type) *)
+Lemma ae_model_meets_spec ops : forall st obs, ae_model st ops obs = true -> ae_spec st ops obs = true.
+Proof.
+  induction ops as [|[[e|]|] ops IH]; intros st [|o obs]; simpl; try discriminate; auto.
+  - destruct st as [c0|]; simpl.
+    + destruct (Nat.eqb (ae_type c0) (ae_type e)) eqn:T; simpl.
+      * intro H. apply andb_true_iff in H as [H1 H2]. rewrite H1. apply IH. exact H2.
+      * intro H. apply andb_true_iff in H as [H1 H2]. apply Z.eqb_eq in H1. subst o. simpl. apply IH. exact H2.
+    + intro H. apply andb_true_iff in H as [H1 H2]. rewrite H1. apply IH. exact H2.
+  - intro H. apply andb_true_iff in H as [H1 H2]. rewrite H1. simpl. apply IH. exact H2.
+  - unfold ae_load. intro H. apply andb_true_iff in H as [H1 H2]. rewrite H1. simpl. apply IH. exact H2.
 Qed.
